@@ -114,7 +114,7 @@ class C27(Prop):
       s = detsched.Scheduler(schedule=case["schedule"], step_limit=300000,
                              trace_files=[files["thread_safe_attributes"], path])
       try:
-        s.run(body)
+        detsched.guarded_run(s, body)
       except detsched.Deadlock as e:
         raise PropertyViolation("deadlock: %s; program:\n%s" % (e, src), "C27:deadlock")
       except detsched.StepLimit as e:
